@@ -8,7 +8,8 @@
         "b"  BMP character     (3 bytes, 1 unit)
         "A"  astral character  (4 bytes, 2 units: a surrogate pair)
         w \in Words            a documented builtin command name (WordLen[w] ASCII characters);
-                               only MCLspGen / the server modules use these, via Expand.
+        p \in Prefixes         a completable prefix (ASCII characters); only MCLspGen / the server
+                               modules use these two kinds, via Expand.
    Everything is stated over token BOUNDARIES k \in 0..Len(text) of an expanded text (the
    offsets at character boundaries); Off(text, k) is the byte offset of boundary k.
 
@@ -44,13 +45,14 @@
      IdxT on every Required position;  with skip = FALSE it differs EXACTLY on CRLFLineStartT. *)
 EXTENDS Integers, Sequences, FiniteSets
 
-Words   == {"nop", "put", "echo", "each"}
-WordLen == [w \in Words |-> IF w \in {"nop", "put"} THEN 3 ELSE 4]
+Words    == {"nop", "put", "echo", "each"}     \* documented builtin commands (hover shows their documentation)
+Prefixes == {"ech", "$pa", "pu"}               \* completable prefixes (of echo, $paths, put...): plain ASCII runs
+WordLen  == [w \in Words \cup Prefixes |-> IF w = "pu" THEN 2 ELSE IF w \in {"echo", "each"} THEN 4 ELSE 3]
 Chars   == {"a", "b", "A", "CR", "LF"}
 
 RECURSIVE Expand(_)
 Expand(s) == IF s = <<>> THEN <<>>
-             ELSE (IF Head(s) \in Words THEN [i \in 1..WordLen[Head(s)] |-> "a"] ELSE <<Head(s)>>) \o Expand(Tail(s))
+             ELSE (IF Head(s) \in Words \cup Prefixes THEN [i \in 1..WordLen[Head(s)] |-> "a"] ELSE <<Head(s)>>) \o Expand(Tail(s))
 
 BytesOf(t) == IF t = "b" THEN 3 ELSE IF t = "A" THEN 4 ELSE 1
 UnitsOf(t) == IF t = "A" THEN 2 ELSE IF t \in {"a", "b"} THEN 1 ELSE 0
